@@ -27,6 +27,7 @@ type c10Case struct {
 	Origin  string        `json:"origin,omitempty"` // well-formed | injected:<class> | mutated (for the evidence only)
 	Roots   int           `json:"roots,omitempty"`
 	Heading bool          `json:"heading,omitempty"`
+	Umask   string        `json:"umask,omitempty"`  // mkdir: process umask (octal) during both runs; permission bits are part of the compared file system
 	IOKind  int           `json:"ioKind,omitempty"` // massive run: dynamic type of reader/writer (ops.Faults.IOKind)
 	Inodes  int           `json:"inodes,omitempty"` // mkdir: the target file system has room for Inodes-1 entries (ENOSPC beyond)
 	CbFail  int           `json:"cbFail,omitempty"` // walk: k>0 = the (k-1)-th callback (in call order) returns an error
@@ -57,7 +58,7 @@ func c10Make(c c10Case, massive bool) ops.Case {
 	case "mkdir":
 		cs.Op = "mkdir"
 		cs.Opts.Exts = c.Exts
-		cs.FS = &ops.FSSpec{Pre: c.Pre, InodeLimit: c.Inodes}
+		cs.FS = &ops.FSSpec{Pre: c.Pre, InodeLimit: c.Inodes, Umask: c.Umask}
 	case "verify":
 		cs.Op = "verify"
 		cs.Opts.Strict = c.Strict
@@ -494,6 +495,9 @@ func c10Gen() *rapid.Generator[c10Case] {
 				}
 			}
 		}
+		if op == "mkdir" {
+			c.Umask = rapid.SampledFrom([]string{"", "", "000", "002", "077", "027"}).Draw(t, "umask")
+		}
 		if op == "mkdir" && mountOK() && rapid.IntRange(0, 4).Draw(t, "fsFull") == 0 {
 			c.Inodes = 1 + rapid.IntRange(0, f.Count()).Draw(t, "room")
 		}
@@ -541,7 +545,7 @@ func c10Record(col *collector, c c10Case, mres *ops.Result) {
 		cl = append(cl, "hook:"+p)
 	}
 	nontrivial := c.Roots >= 3 || c.Origin != "well-formed"
-	col.eval(nontrivial, hash64(string(c.Doc), fmt.Sprint(c.Op, c.Branch, c.Exts, c.Strict, c.Pre, c.Sched, c.CbFail, c.CbErr, c.Inodes, c.IOKind)), cl...)
+	col.eval(nontrivial, hash64(string(c.Doc), fmt.Sprint(c.Op, c.Branch, c.Exts, c.Strict, c.Pre, c.Sched, c.CbFail, c.CbErr, c.Inodes, c.IOKind, c.Umask)), cl...)
 	col.sample(func() any {
 		return map[string]any{"doc": truncate(string(c.Doc), 300), "op": c.Op, "origin": c.Origin, "sched": c.Sched}
 	})
